@@ -232,10 +232,17 @@ var headerMutations = []mutation{
 	{"tx-before-rx", func(t *rapid.T, b []byte) []byte {
 		// transmit = receive - delta
 		rx := binary.BigEndian.Uint64(b[32:])
-		d := rapid.SampledFrom([]uint64{1, 5, 1 << 32, 1 << 40, 1 << 56}).Draw(t, "delta")
+		d := rapid.SampledFrom([]uint64{5, 9, 1 << 32, 1 << 40, 1 << 56}).Draw(t, "delta") // >= 5 units of 2^-32 s: more than the nanosecond rounding the statement allows
 		binary.BigEndian.PutUint64(b[40:], rx-d)
 		return b
 	}, nil},
+	// receive timestamp half an era after the request (where era resolution flips), transmit a second before it
+	{"tx-before-rx-at-era-pivot", nil, func(t *rapid.T, b []byte, q *ntp.Packet) []byte {
+		rx := (uint64(q.TransmitTime.Seconds)<<32 | uint64(q.TransmitTime.Fraction)) + 1<<63 + uint64(rapid.Int64Range(-2<<32, 2<<32).Draw(t, "pivot-delta"))
+		binary.BigEndian.PutUint64(b[32:], rx)
+		binary.BigEndian.PutUint64(b[40:], rx-uint64(rapid.SampledFrom([]int64{5, 1 << 31, 1 << 32, 5 << 32}).Draw(t, "tx-behind")))
+		return b
+	}},
 	{"truncate", func(t *rapid.T, b []byte) []byte { return b[:rapid.IntRange(0, 47).Draw(t, "len")] }, nil},
 	{"harmless-fields", func(t *rapid.T, b []byte) []byte {
 		b[2], b[3] = rapid.Byte().Draw(t, "poll"), rapid.Byte().Draw(t, "prec")
@@ -303,7 +310,8 @@ func TestPropAcceptance(t *testing.T) {
 	defer checkStalls(t)
 	vt.Check(t, 500, 5000, func(t *rapid.T) {
 		useNTS := rapid.IntRange(0, 2).Draw(t, "nts") == 1
-		c := &client.IPClient{Log: slog.New(slog.NewTextHandler(io.Discard, nil)), InterleavedMode: rapid.Bool().Draw(t, "interleaved")}
+		capt := &netlab.Capture{}
+		c := &client.IPClient{Log: capt.Logger(), InterleavedMode: rapid.Bool().Draw(t, "interleaved")}
 		if useNTS {
 			c.Auth.Enabled = true
 			c.Auth.NTSKEFetcher = ntske.Fetcher{Log: c.Log, Port: strconv.Itoa(ke.Addr.Port),
@@ -493,6 +501,7 @@ func TestPropAcceptance(t *testing.T) {
 		matched := -1
 		for i, cd := range cands {
 			descs = append(descs, cd.desc)
+			antipodal := false
 			acc := cd.via != "other-address" && acceptableHeader(cd.data, &q)
 			if acc && useNTS {
 				acc = ntsAuthentic(cd.data, uid, k.s2c)
@@ -505,7 +514,20 @@ func TestPropAcceptance(t *testing.T) {
 					// interleaved reply: its transmit time belongs to the previous exchange, whose receive time the request cited
 					rx = ntp.TimeFromTime64(q.OriginTime, win.a)
 				}
-				if tx.Before(rx) {
+				// "a transmit time not before its receive time", on the 64-bit timestamps themselves (modulo 2^64, i.e.
+				// within half an era of each other): resolving the two against a reference one by one can put them into
+				// different eras
+				rx64 := binary.BigEndian.Uint64(cd.data[32:])
+				if q.OriginTime != (ntp.Time64{}) && org == q.ReceiveTime && org != q.TransmitTime {
+					rx64 = uint64(q.OriginTime.Seconds)<<32 | uint64(q.OriginTime.Fraction)
+				}
+				d64 := int64(binary.BigEndian.Uint64(cd.data[40:]) - rx64)
+				if d64 > 1<<62 || d64 < -(1<<62) {
+					// transmit and receive time about half an era (34..68 years) apart: which one is earlier is not defined
+					nUnjudged++
+					acc = false
+					antipodal = true
+				} else if tx.Before(rx) || d64 < 0 {
 					acc = false
 				}
 			}
@@ -517,7 +539,7 @@ func TestPropAcceptance(t *testing.T) {
 				}
 			}
 			if !acc {
-				if cd.via != "other-port" {
+				if cd.via != "other-port" && !antipodal {
 					nBad++
 				}
 				continue
@@ -548,7 +570,13 @@ func TestPropAcceptance(t *testing.T) {
 					rec.Eval(false, 0, nil, "unjudged-other-port")
 					return
 				}
-				t.Fatalf("the client reported offset %v, which is not the offset of any acceptable datagram it was sent (nts=%v interleaved=%v request origin=%v; datagrams %v)", off, useNTS, c.InterleavedMode, q.OriginTime, descs)
+				var evald []string
+				for _, r := range capt.Take() {
+					if r.Msg == "evaluated response" || r.Msg == "received response" {
+						evald = append(evald, fmt.Sprintf("%s %v", r.Msg, r.Attrs))
+					}
+				}
+				t.Fatalf("the client reported offset %v, which is not the offset of any acceptable datagram it was sent (nts=%v interleaved=%v request origin=%v; datagrams %v; client log %v)", off, useNTS, c.InterleavedMode, q.OriginTime, descs, evald)
 			}
 		} else if loneGenuine {
 			// rule out a stall of the harness or the scheduler under the short deadline: the same exchange with a generous one
